@@ -375,6 +375,45 @@ Section WithOracle.
       - apply triggers_off_good; assumption.
     Qed.
 
+    (* ---- the binding's start: loadExistedObjects makes the listed objects known ---- *)
+
+    Lemma load_existed_model listed : forall c,
+      inv c -> (forall io, In io listed -> good (snd io)) ->
+      exists c0, load_existed jq cfg listed c = Some c0 /\ inv c0 /\
+        map g c0
+        = fold_left (fun k io => k_set (fst io) (snd io, projection jq filter (snd io)) k) listed (map g c).
+    Proof.
+      induction listed as [|[id o] r IH]; intros c Hinv Hgood.
+      - exists c. split; [reflexivity|]. split; [exact Hinv | reflexivity].
+      - assert (Hgo : good o) by (apply (Hgood (id, o)); left; reflexivity).
+        destruct (good_apply o Hgo) as (e & Ha & Eo & _).
+        cbn [load_existed fold_left fst snd]. rewrite Ha.
+        destruct (IH (c_set id e c)) as (c0 & Hl & Hinv0 & Hmap).
+        + intros id' e' Hin. destruct (In_c_set _ _ _ _ Hin) as [E|Hin']; [|apply (Hinv _ _ Hin')].
+          inversion E; subst id' e'. rewrite Eo. split; assumption.
+        + intros io Hio. apply Hgood. right; exact Hio.
+        + exists c0. split; [exact Hl|]. split; [exact Hinv0|].
+          rewrite Hmap. rewrite <- k_set_map. rewrite Eo. reflexivity.
+    Qed.
+
+    Lemma partial_start_steps listed h :
+      oracle_canonical (listed_steps listed ++ h) ->
+      T_F8 jq filter (listed_steps listed ++ h) = false ->
+      T_F16 jq filter (listed_steps listed ++ h) = false ->
+      exists c0, load_existed jq cfg listed [] = Some c0 /\
+        P_start jq types filter listed h (map to_obs (run jq cfg c0 h)) = true.
+    Proof.
+      intros Hcan H8 H16.
+      pose proof (triggers_off_good _ Hcan H8 H16) as Hgood.
+      destruct (load_existed_model listed []) as (c0 & Hl & Hinv0 & Hmap).
+      - intros id e [].
+      - intros io Hio. apply (Hgood (Added, fst io, snd io)). apply in_or_app. left.
+        unfold listed_steps. apply (in_map (fun io => (Added, fst io, snd io))). exact Hio.
+      - exists c0. split; [exact Hl|]. unfold P_start, known_of_list.
+        cbn [map] in Hmap. rewrite <- Hmap. apply P_from_model; [exact Hinv0|].
+        intros s Hs. apply Hgood. apply in_or_app. right. exact Hs.
+    Qed.
+
   End Partial.
 
   (* ---- the form of the delivered argument (object / tombstone by value) ---- *)
@@ -551,6 +590,129 @@ Section WithOracle.
     apply latest_relist. exact Hnd.
   Qed.
 
+  (* ---- the start of a binding: initial list, then the shared informer's replay ---- *)
+
+  (* the property for every start (any listed objects) followed by any deliveries - the
+     informer's replay of the listed objects included - outside the two findings *)
+  Lemma partial_start types filter listed (h : list dstep) :
+    oracle_canonical (listed_steps listed ++ map change_of h) ->
+    T_F8 jq filter (listed_steps listed ++ map change_of h) = false ->
+    T_F16 jq filter (listed_steps listed ++ map change_of h) = false ->
+    exists c0, load_existed jq (mkConfig types filter) listed [] = Some c0 /\
+      P_start jq types filter listed (map change_of h)
+              (map to_obs (run_d jq (mkConfig types filter) c0 h)) = true.
+  Proof.
+    intros Hcan H8 H16.
+    destruct (partial_start_steps types filter listed (map change_of h) Hcan H8 H16) as (c0 & Hl & HP).
+    exists c0. split; [exact Hl|]. rewrite run_d_changes. exact HP.
+  Qed.
+
+  Lemma a_get_none_notin id l : ~ In id (map fst l) -> a_get id l = None.
+  Proof.
+    induction l as [|[k o] r IH]; intros Hn; [reflexivity|].
+    cbn [a_get]. destruct (N.eqb_spec id k) as [E|NE].
+    - exfalso. apply Hn. left. cbn [fst]. congruence.
+    - apply IH. intros Hin. apply Hn. right. exact Hin.
+  Qed.
+
+  (* what loadExistedObjects leaves: well-formed entries, and for every id the listed object *)
+  Lemma load_existed_cache cfg listed : forall c c0,
+    NoDup (map fst listed) -> cache_wf cfg c -> load_existed jq cfg listed c = Some c0 ->
+    cache_wf cfg c0 /\
+    forall id, option_map e_obj (c_get id c0)
+               = match a_get id listed with Some o => Some o | None => option_map e_obj (c_get id c) end.
+  Proof.
+    induction listed as [|[k o] r IH]; intros c c0 Hnd Hwf Hl.
+    - cbn [load_existed] in Hl. inversion Hl; subst c0. split; [exact Hwf|]. intros id. reflexivity.
+    - cbn [map fst] in Hnd. inversion Hnd as [|x xs Hnotin Hnd']; subst x xs.
+      cbn [load_existed] in Hl. destruct (apply_filter jq cfg o) as [e|] eqn:Ha; [|discriminate].
+      pose proof (apply_filter_obj _ _ _ Ha) as Eo.
+      assert (Hwf' : cache_wf cfg (c_set k e c)).
+      { intros id' e' Hin. destruct (In_c_set _ _ _ _ Hin) as [E|Hin']; [|apply (Hwf _ _ Hin')].
+        inversion E; subst id' e'. rewrite Eo. exact Ha. }
+      destruct (IH (c_set k e c) c0 Hnd' Hwf' Hl) as [Hwf0 Hget].
+      split; [exact Hwf0|]. intros id. rewrite Hget. cbn [a_get]. rewrite c_get_set.
+      destruct (N.eqb_spec id k) as [E|NE].
+      + subst id. rewrite (a_get_none_notin k r Hnotin). cbn [option_map]. rewrite Eo. reflexivity.
+      + reflexivity.
+  Qed.
+
+  Lemma a_get_in_nodup l : forall id o, NoDup (map fst l) -> In (id, o) l -> a_get id l = Some o.
+  Proof.
+    induction l as [|[k o'] r IH]; intros id o Hnd Hin; [destruct Hin|].
+    cbn [map fst] in Hnd. inversion Hnd as [|x xs Hnotin Hnd']; subst x xs.
+    cbn [a_get]. destruct Hin as [E|Hin].
+    - inversion E; subst. rewrite N.eqb_refl. reflexivity.
+    - destruct (N.eqb_spec id k) as [E|NE].
+      + subst k. exfalso. apply Hnotin. apply (in_map fst _ _ Hin).
+      + apply IH; assumption.
+  Qed.
+
+  (* one re-delivery of an object the cache holds, in any reachable cache *)
+  Lemma redelivery_step cfg c id e t :
+    cache_wf cfg c -> c_get id c = Some e -> t <> Deleted ->
+    snd (handle jq cfg c t id (e_obj e)) = None /\
+    forall id', c_get id' (fst (handle jq cfg c t id (e_obj e))) = c_get id' c.
+  Proof.
+    intros Hwf Hg Ht.
+    assert (Ha : apply_filter jq cfg (e_obj e) = Some e) by (apply (Hwf id), c_get_In; exact Hg).
+    split.
+    - rewrite (fire_iff cfg c t id (e_obj e) e Ha). unfold fire_cond. rewrite Hg.
+      rewrite json_eqb_refl. cbn [negb]. destruct t; [| |contradiction]; rewrite andb_false_r; reflexivity.
+    - intros id'. unfold handle. rewrite Ha.
+      destruct t; [| |contradiction]; cbn [fst]; rewrite c_get_set;
+        destruct (N.eqb_spec id' id) as [E|_]; try reflexivity; subst id'; symmetry; exact Hg.
+  Qed.
+
+  Lemma replay_silent_from cfg c0 delivered : forall c,
+    cache_wf cfg c -> (forall id, c_get id c = c_get id c0) ->
+    (forall io, In io delivered -> exists e, c_get (fst io) c0 = Some e /\ e_obj e = snd io) ->
+    Forall (fun r : cache * option event => snd r = None /\ forall id, c_get id (fst r) = c_get id c0)
+           (run_d jq cfg c (start_replay delivered)).
+  Proof.
+    induction delivered as [|[id o] r IH]; intros c Hwf Hsame Hin; [constructor|].
+    destruct (Hin (id, o) (or_introl eq_refl)) as (e & Hg & Eo). cbn [fst snd] in Hg, Eo.
+    cbn [start_replay map fst snd run_d]. unfold handle_d. cbn [unwrap].
+    destruct (handle jq cfg c Added id o) as [c' ev] eqn:Eh.
+    assert (Hgc : c_get id c = Some e) by (rewrite Hsame; exact Hg).
+    assert (Ht : Added <> Deleted) by discriminate.
+    destruct (redelivery_step cfg c id e Added Hwf Hgc Ht) as [Hs Hc]. rewrite Eo, Eh in Hs, Hc.
+    cbn [fst snd] in Hs, Hc.
+    constructor.
+    - cbn [fst snd]. split; [exact Hs|]. intros id'. rewrite Hc. apply Hsame.
+    - apply IH.
+      + assert (E : c' = fst (handle jq cfg c Added id o)) by (rewrite Eh; reflexivity).
+        rewrite E. apply handle_wf. exact Hwf.
+      + intros id'. rewrite Hc. apply Hsame.
+      + intros io Hio. apply Hin. right. exact Hio.
+  Qed.
+
+  (* "Re-delivery of an unchanged object (informer start ...) triggers nothing": for every
+     binding and every set of existing objects, if what the shared informer delivers at its
+     start are objects the initial list returned (same id, same content; any order, any
+     multiplicity), then no delivery of the replay fires and every one leaves the cache - the
+     snapshot - as loadExistedObjects filled it; that cache shows exactly the listed objects *)
+  Lemma start_silent cfg listed delivered c0 :
+    NoDup (map fst listed) ->
+    load_existed jq cfg listed [] = Some c0 ->
+    incl delivered listed ->
+    Forall (fun r : cache * option event => snd r = None /\ forall id, c_get id (fst r) = c_get id c0)
+           (run_d jq cfg c0 (start_replay delivered)) /\
+    store_agrees c0 listed.
+  Proof.
+    intros Hnd Hl Hincl.
+    destruct (load_existed_cache cfg listed [] c0 Hnd (empty_wf cfg) Hl) as [Hwf0 Hget].
+    assert (Hag : store_agrees c0 listed).
+    { intros id. rewrite Hget. cbn [c_get option_map]. destruct (a_get id listed); reflexivity. }
+    split; [|exact Hag].
+    apply replay_silent_from; [exact Hwf0 | reflexivity |].
+    intros [id o] Hio. cbn [fst snd].
+    pose proof (a_get_in_nodup listed id o Hnd (Hincl _ Hio)) as Ea.
+    specialize (Hag id). rewrite Ea in Hag.
+    destruct (c_get id c0) as [e|]; [|discriminate].
+    exists e. split; [reflexivity|]. cbn [option_map] in Hag. inversion Hag. reflexivity.
+  Qed.
+
   (* an object that disappeared during the outage: its tombstone fires Deleted iff listed *)
   Lemma relist_gone_is_deleted (store listed : list (N * json)) s :
     In s (flat_map (relist_gone listed) store) ->
@@ -634,4 +796,25 @@ Proof.
     split; [exact canonical_F8|]. repeat split; vm_compute; reflexivity.
   - exists jq_foo, all3, true, (map plain h_F16).
     split; [exact canonical_F16|]. repeat split; vm_compute; reflexivity.
+Qed.
+
+(* the F8 witness at the start of a binding: the object with replicas=3 exists when the
+   binding is enabled (it is listed, not delivered); the Modified to replicas=4 never fires *)
+Definition listed_F8 : list (N * json) := [(1%N, o_rep 3)].
+Definition h_F8_start : list dstep := [(Added, 1%N, Plain (o_rep 3)); (Modified, 1%N, Plain (o_rep 4))].
+
+Lemma refuted_start :
+  exists jq types filter listed (h : list dstep) c0,
+    oracle_canonical jq (listed_steps listed ++ map change_of h) /\
+    T_F8 jq filter (listed_steps listed ++ map change_of h) = true /\
+    T_F16 jq filter (listed_steps listed ++ map change_of h) = false /\
+    load_existed jq (mkConfig types filter) listed [] = Some c0 /\
+    P_start jq types filter listed (map change_of h)
+            (map to_obs (run_d jq (mkConfig types filter) c0 h)) = false.
+Proof.
+  exists jq_replicas, all3, true, listed_F8, h_F8_start.
+  eexists. split.
+  - intros s [H|[H|[H|[]]]]; subst s; vm_compute; reflexivity.
+  - split; [vm_compute; reflexivity|]. split; [vm_compute; reflexivity|].
+    split; [vm_compute; reflexivity|]. vm_compute; reflexivity.
 Qed.
